@@ -3,8 +3,11 @@ package wr
 import (
 	"fmt"
 	"sort"
+	"strconv"
 	"strings"
 	"time"
+
+	kafka "github.com/segmentio/kafka-go"
 
 	"verif/engine/qx"
 )
@@ -437,6 +440,20 @@ func (w *world) judge(prop string, st qx.Status) *qx.Outcome {
 					}
 					if len(byID[id]) == 0 {
 						viol("close-dropped-message", fmt.Sprintf("Close returned but accepted message %s was never sent", id))
+					}
+					// "sent or has exhausted its attempts": a message accepted before Close whose Completion ran ends
+					// acknowledged, or failed for good - MaxAttempts produce requests made, or the last one not answered
+					// with a retriable error code. Judged when the brokers answered every request that carried the message
+					// and the last answer was a retriable code: then the Writer had attempts left and a reason to use them.
+					if ocs := byID[id]; ok && len(ocs) > 0 && len(ocs) < s.MaxAttempts && acked(id) == nil {
+						answered := true
+						for _, oc := range ocs {
+							answered = answered && strings.HasPrefix(oc.a.Answer, "err:")
+						}
+						last := ocs[len(ocs)-1].a
+						if code, perr := strconv.Atoi(strings.TrimPrefix(last.Answer, "err:")); answered && perr == nil && kafka.Error(code).Temporary() {
+							viol("close-abandoned-retry", fmt.Sprintf("Close returned and accepted message %s reached Completion unacknowledged after %d of MaxAttempts=%d produce requests, the last one (#%d) answered with the retriable error %d: its remaining attempts were never made", id, len(ocs), s.MaxAttempts, last.Seq, code))
+						}
 					}
 				}
 			}
